@@ -7,7 +7,7 @@ from ..gen import G, LAYOUTS, fmt_date_layout, Qty
 from ..common import run_apps, app, out_of, sig
 from ..core import unhx
 
-THEOREMS = ['print_day', 'print_uses_parse_layout', 'print_days', 'printed_quantity_stable', 'printed_quantity_close', 'printed_quantity_reads_back', 'printed_date_reads_back', 'print_reparse', 'print_print', 'documented_notes_read_back', 'dayOK_of_plain', 'print_reparse_plain']
+THEOREMS = ['print_day', 'print_uses_parse_layout', 'print_days', 'printed_quantity_stable', 'printed_quantity_close', 'printed_quantity_reads_back', 'printed_date_reads_back', 'print_reparse', 'print_print', 'documented_notes_read_back', 'dayOK_of_plain', 'print_reparse_plain', 'print_layout_follows_source']
 LEVEL = 'proof'
 RULE = ('parseable logs (layout variants per line, names from several scripts, notes of the `# name: value` / `# text` forms, a stream of notes with '
         "'#', ':' and blanks inside) x date formats {default, ISO, day-first, month-first, dotted, unpadded} x periods; print is fed back to print and to csv log; "
